@@ -61,7 +61,7 @@ def listing_names(verb, data, encoding="utf-8"):
     return names
 
 
-async def drive(peer, sess: M.Session, ops, *, world=None, check_tree=True, settle=0.05, payload_of=None, stop_on_problem=False):
+async def drive(peer, sess: M.Session, ops, *, world=None, check_tree=True, settle=0.05, payload_of=None, stop_on_problem=False, on_step=None):
     """Execute ops = [(verb, arg, opts)], return list of Step.  `sess` is advanced."""
     steps = []
     alive = True
@@ -79,6 +79,8 @@ async def drive(peer, sess: M.Session, ops, *, world=None, check_tree=True, sett
         will_connect = opts.get("connect", "before") != "never" or (sess.dc and sess.logged and sess.listener)
         exp = sess.expect(v, arg, will_connect=will_connect, user_limit_reached=opts.get("limit_reached", False))
         st.expect = exp
+        if on_step is not None:
+            on_step(st, "before", sess)
         line = verb if arg == "" and not opts.get("trailing_space") else f"{verb} {arg}"
         stored = None
         try:
@@ -183,6 +185,8 @@ async def drive(peer, sess: M.Session, ops, *, world=None, check_tree=True, sett
                 # resynchronise so that one divergence is reported once
                 sess.tree.clear()
                 sess.tree.update(snap)
+        if on_step is not None:
+            on_step(st, "after", sess)
         if stop_on_problem and st.problems:
             break
     return steps
